@@ -474,7 +474,7 @@ pub fn plan_archive_merge(
     let mut dest_idx = 0;
     let mut dest_used = sources[0].1;
 
-    for &(source_seg, source_used) in &sources[1..] {
+    for (i, &(source_seg, source_used)) in sources.iter().enumerate().skip(1) {
         let (dest_seg, _) = sources[dest_idx];
 
         if dest_used + source_used <= segment_size {
@@ -496,12 +496,11 @@ pub fn plan_archive_merge(
                 plan.target_segments.push(dest_seg);
             }
         } else {
-            // Move to next dest
-            dest_idx += 1;
-            if dest_idx >= sources.len() {
-                break;
-            }
-            dest_used = sources[dest_idx].1;
+            // This source does not fit: it stays where it is and becomes
+            // the next destination. (`dest_idx + 1` may be a segment whose
+            // data an earlier move has already planned away.)
+            dest_idx = i;
+            dest_used = source_used;
         }
     }
 
